@@ -13,7 +13,11 @@ ranges, lengths, byte values or sample inputs anywhere in this module)
   are compared with the fixed part computed from the C definition; (6) constant folding - including the grammar-level
   constants of the definition text (`#define NAME <integer expression>`, `_grammar_consts`) that the array-length
   expression names (a field of the structure shadows a constant, as in dissect.cstruct); an identifier of the length
-  expression that is neither a field nor a folded constant makes the obligation undecided.
+  expression that is neither a field nor a folded constant makes the obligation undecided.  "integer fields: full
+  unsigned width": (1)/(6) every scalar field of the parsed definition (taken as they come, type aliases / enum base
+  types resolved by the definition parser) is an unsigned integer type, and - for the fields of the reference table
+  `_FIELD_BYTES` that are present - of the transported width; a field whose type the definition parser does not know
+  makes the obligation undecided.
 * R2 / R6(DOM) rejection rules of decrypt_metadata: (2) CFG reachability with infeasible branch edges pruned by a
   three-valued (True / False / both-by-lemma / unknown) evaluation of the branch tests under explicit, named
   assumptions, combined with (3)/(4) a forward data-flow propagation of the values of locals over the constant /
@@ -68,6 +72,18 @@ ranges, lengths, byte values or sample inputs anywhere in this module)
   "both outcomes occur" test leads to it (graph search `_Flow.both_count`; two such tests may be correlated: nothing is
   claimed), undecided when it is only reached through tests that cannot be evaluated, discharged when it is not reached.
   No value of any field is enumerated or tried.
+* R9 the keys handed out for a seed are the keys of *that* seed: (1)/(3) in every function in which R5 located a
+  derivation from the random bytes, the def-use origins (`_value_origins`: all definitions of a local, both arms of a
+  conditional expression, operands of and / or, the default of get / setdefault / pop) of every returned value and of
+  every value stored into an attribute that receives derived keys are classified with R5's classification; an origin
+  that is an element look-up (`C[K]`, `C.get(K)`, `C.setdefault(K, ..)`, `C.pop(K)`) in a container that outlives the
+  call (a name the function never binds: module / class level; state of `self` / `cls`) is judged by its key term
+  (substituted definitions, compared structurally): built only of constants, *other* fields of the structure that
+  carries the seed (field names from the C definition) and other parameters -> the key does not determine the seed
+  (lemma: the property quantifies over every field value and every 16-byte seed independently, so equal keys do not
+  imply equal seeds; the element was stored for an earlier seed) -> violated; the key is / contains the seed, or
+  anything else -> undecided (the stored elements are not followed).  An origin that is a parameter (keys supplied by
+  the caller) or None is no hand-out of derived keys; any other unclassified origin makes the obligation undecided.
 """
 
 from __future__ import annotations
@@ -83,6 +99,10 @@ from csverif.cfg import ENTRY
 from csverif.q import FuncView, dominating_conditions, inline, origin, raise_class
 
 MAGIC = 0xBEEF
+# reference table: width in bytes of the integer fields of the Beacon metadata on the wire (the "full integer width" of the
+# property); compared with the C definition for the fields that are present under these names
+_FIELD_BYTES = {"magic": 4, "size": 4, "ansi_cp": 2, "oem_cp": 2, "bid": 4, "pid": 4, "port": 2, "flag": 1, "ver_major": 1, "ver_minor": 1,
+                "ver_build": 2, "ptr_x64": 4, "ptr_gmh": 4, "ptr_gpa": 4, "ip": 4}
 _DERIVE = "c2.derive_aes_hmac_keys"
 _SLOTS = {"aes_key": "aes", "hmac_key": "hmac"}
 _KEY_FUNCS = ("c2.BeaconKeys.from_aes_rand", "c2.BeaconKeys.from_beacon_metadata", "c2.C2Http.__init__", "c2.C2Http.iter_recover_http",
@@ -1042,7 +1062,8 @@ def run(ctx):
         "with the symbolic magic decided by interval lemmas; infeasible edges pruned), writer/reader agreement on the "
         "magic and the RSA cipher construction, the PKCS#1 v1.5 length bound as a linear form, and role checks of every "
         "session-key derivation (SHA-256 halves by normalised constant slice bounds reaching aes_key / hmac_key slots, "
-        "derived from the 16 aes_rand bytes), and acceptance of every well-formed metadata by decrypt_metadata: no raise / "
+        "derived from the 16 aes_rand bytes; every integer field of BeaconMetadata an unsigned type of the transported width; "
+        "no returned / stored session keys taken from state that outlives the call under a key that does not determine the seed), and acceptance of every well-formed metadata by decrypt_metadata: no raise / "
         "failing assert is reached when the parsed fields range over the domain read from C2_DEF (magic 0xBEEF, size field "
         "51 + len(info) as the interval [51, 237], every other integer field the interval of its width; branch tests decided "
         "by interval lemmas).  No code of the repository is executed or evaluated on sample inputs."
@@ -1053,6 +1074,8 @@ def run(ctx):
         "rejection tests of decrypt_metadata that combine several correlated comparisons of the magic, or compute with the plaintext, are reported undecided",
         "R1: an array-length expression that names an identifier which is neither a field nor a #define with a foldable integer value is reported undecided",
         "R6: exceptions of a with-body whose context manager is a package class with an __exit__ that raises / may return a truthy value are reported undecided",
+        "R9: a registry / memo of session keys whose key is or contains the random bytes (or is not built of constants, other metadata fields and parameters only) is reported undecided - the stored elements are not followed; containers handed in as arguments or returned by calls are not followed; object identity / mutation of a returned keys object is not analysed",
+        "R1: a metadata field whose type is not an integer type known to the C-definition parser is reported undecided (signedness / width)",
         "R8: rejections of decrypt_metadata guarded by two or more undecided-by-one-lemma tests, by tests of array fields / of the plaintext content / of the key, or inside loops are reported undecided; RSA keys other than 1024 / 2048 bits are outside the domain (size field bounded by the RSA-2048 limit)",
     ]
     rep.trusted_base = [
@@ -1064,13 +1087,15 @@ def run(ctx):
         "lemma: over the integers a >= b <=> a - b + 1 > 0 and not (a > b) <=> b - a + 1 > 0 (linear normal form of the length bound)",
         "R8 domain: a metadata produced by encrypt_metadata has size = len - 8 = 51 + len(info) (R1) with 59 + len(info) <= modulus - 11 (PKCS#1 v1.5), every other field any value of its C type; the parse of such a plaintext does not raise (dissect.cstruct)",
         "dissect.cstruct: an identifier of an array-length expression is resolved among the fields of the structure first, then among the #define constants; + - * << >> & | ^ mean the same as in Python",
+        "reference table: widths of the integer fields of the Beacon metadata on the wire (_FIELD_BYTES); dissect.cstruct: a field of a signed type packs / unpacks two's complement values of that size only",
+        "lemma (R9): the fields of a BeaconMetadata and the parameters of a function are independent inputs (the property quantifies over all field values and all 16-byte seeds), so a key term built only of constants, fields other than the seed and other parameters takes equal values for metadata with different seeds; an element of a container that outlives the call was stored by an earlier call",
         "contextlib.contextmanager: an exception of the with-body is thrown into the generator at its yield; what the generator raises or lets through leaves the with statement",
         "dissect.cstruct: the fields of a default-constructed structure are 0 / empty and an array of non-positive computed length serialises to nothing (len(BeaconMetadata()) == fixed part)",
         "lemmas: [lo, hi) +/- c is the shifted interval (Python integers do not wrap); s + a <op> s + b <=> a <op> b; an integer is truthy iff it is != 0; equal values of builtin types have equal truthiness",
     ]
     from csverif import AnalysisError
 
-    for rule in (r1, r2, r3_r4, r5, r6, r8):
+    for rule in (r1, r2, r3_r4, r5, r6, r8, r9):
         try:
             rule(ctx)
         except AnalysisError:
@@ -1178,6 +1203,34 @@ def r1(ctx):
            f"first fields (name, offset, size, signed) {heads} (aes_rand {s.fields[2].type if len(s.fields) > 2 else None}[{cnt}]) endian {cd.endian!r}; required magic@0,size@4 unsigned 32 bit, aes_rand char[16]@8, big-endian")
     names = [x.name for x in s.fields]
     ctx.ob("R1", "TABLE", where, "field count", len(names) == 17 and fixed == 59, f"{len(names)} fields, fixed {fixed} bytes (59 required): {names}")
+    # ---- every integer field carries its full unsigned width: the metadata on the wire is a sequence of unsigned
+    # big-endian quantities; a field declared with a signed type of the same size keeps the layout (and the fixed size)
+    # but can neither serialise the upper half of its values nor hand them back after the transport.  Read from the parsed
+    # C definition (type aliases and enum base types resolved by the definition parser); fields are taken as they come (no
+    # field is looked up by name) and, where a field of the reference layout is present, its width is compared too.
+    signed, narrow, unknown, n_int = [], [], [], 0
+    for x in s.fields:
+        if x.count is not None:
+            continue  # arrays: the 16 random bytes / the info text are byte strings
+        ts = cd.type_size(x.type)
+        if ts is None or x.type in cd.structs or x.type in ("struct", "union"):
+            unknown.append(f"{x.type} {x.name}")
+            continue
+        n_int += 1
+        if ts[1]:
+            signed.append(f"{x.type} {x.name}")
+        w = _FIELD_BYTES.get(x.name)
+        if w is not None and ts[0] != w:
+            narrow.append(f"{x.type} {x.name} ({ts[0]} bytes, {w} on the wire)")
+    text = "integer fields: full unsigned width"
+    if signed or narrow:
+        ctx.ob("R1", "TABLE", where, text, False,
+               "; ".join(([f"declared with a signed type: {signed} - values with the top bit set cannot be serialised and are handed back negative after the transport"] if signed else []) +
+                         ([f"width differs from the transported field: {narrow}"] if narrow else [])))
+    elif unknown or not n_int:
+        ctx.undecided("R1", "TABLE", where, text, f"fields whose type is not an integer type known to the definition parser: {unknown}")
+    else:
+        ctx.ob("R1", "TABLE", where, text, True, f"all {n_int} scalar fields are unsigned integers of the transported width")
 
 
 # ================================================================================================================== R2
@@ -2044,6 +2097,221 @@ def r5(ctx):
     else:
         ctx.undecided("R5", "AGREE", run, text, "no BeaconMetadata construction / aes_rand store located in run()")
     ctx.rep.count("derivation_sites", n_sites, floor=6)
+
+
+# ================================================================================================================== R9
+def _value_origins(fn, e, seen=None):
+    """Every expression the value of e may come from: all definitions of a local (chained and element-wise tuple
+    assignments included), both arms of a conditional expression, every operand of `and` / `or`, the value of a walrus.
+    A binding without a plain value expression (loop target, unpacking of a call ..) leaves the name itself."""
+    seen = set() if seen is None else seen
+    e = _unbytes(e)
+    if id(e) in seen or len(seen) > 200:
+        return []
+    seen.add(id(e))
+    if isinstance(e, ast.Name) and e.id not in params(fn):
+        defs = assignments_to(fn, e.id)
+        if defs and all(v is not None for _s, v in defs):
+            out = []
+            for _s, v in defs:
+                out.extend(_value_origins(fn, v, seen))
+            return out
+        return [e]
+    if isinstance(e, ast.IfExp):
+        return _value_origins(fn, e.body, seen) + _value_origins(fn, e.orelse, seen)
+    if isinstance(e, ast.BoolOp):
+        return [o for x in e.values for o in _value_origins(fn, x, seen)]
+    if isinstance(e, ast.NamedExpr):
+        return _value_origins(fn, e.value, seen)
+    if (isinstance(e, ast.Call) and isinstance(e.func, ast.Attribute) and e.func.attr in ("get", "setdefault", "pop") and len(e.args) == 2
+            and not e.keywords and not any(isinstance(a, ast.Starred) for a in e.args)):
+        # `C.get(K, V)` / `C.setdefault(K, V)` / `C.pop(K, V)`: the element found under K, or V
+        return [e] + _value_origins(fn, e.args[1], seen)
+    return [e]
+
+
+def _outlives_call(fn, c, depth=0):
+    """Is the container expression c an object that exists before and after the call of fn: a module-level / class-level
+    object, or state of `self` / `cls`?  True / False (a container built in this call) / None (not followed: the result of
+    a call, a container handed in as an argument)."""
+    c = _unbytes(c)
+    if depth > 6:
+        return None
+    if isinstance(c, (ast.Dict, ast.DictComp, ast.List, ast.ListComp, ast.Tuple, ast.Set, ast.SetComp)):
+        return False
+    if isinstance(c, ast.Call):
+        return False if dotted(c.func) in ("dict", "list", "OrderedDict", "collections.OrderedDict", "defaultdict", "collections.defaultdict") else None
+    if isinstance(c, (ast.Attribute, ast.Subscript)):
+        return _outlives_call(fn, c.value, depth + 1)
+    if isinstance(c, ast.Name):
+        ps = params(fn)
+        if c.id in ps:
+            return True if ps.index(c.id) == 0 and c.id in ("self", "cls") else None
+        defs = assignments_to(fn, c.id)
+        if not defs:
+            declared_local = any(isinstance(n, ast.Name) and n.id == c.id and isinstance(n.ctx, (ast.Store, ast.Del)) for n in ast.walk(fn))
+            return None if declared_local else True  # a name the function never binds: module / class level
+        res = {(_outlives_call(fn, v, depth + 1) if v is not None else None) for _s, v in defs}
+        return res.pop() if len(res) == 1 else None
+    return None
+
+
+def _state_lookup(fn, o):
+    """(container, key) if expression o reads an element of a container that outlives the call: `C[K]`, `C.get(K, ..)`,
+    `C.setdefault(K, ..)`, `C.pop(K, ..)`, `C.__getitem__(K)`; else None."""
+    if isinstance(o, ast.Subscript) and not isinstance(o.slice, ast.Slice) and isinstance(o.ctx, ast.Load):
+        c, k = o.value, o.slice
+    elif (isinstance(o, ast.Call) and isinstance(o.func, ast.Attribute) and o.func.attr in ("get", "setdefault", "pop", "__getitem__")
+          and o.args and not isinstance(o.args[0], ast.Starred)):
+        c, k = o.func.value, o.args[0]
+    else:
+        return None
+    return (c, k) if _outlives_call(fn, c) is True else None
+
+
+def _metadata_scalar_fields(ctx):
+    from csverif import AnalysisError
+
+    try:
+        cd = ctx.cdefs("c_c2").get("c2struct")
+        return {x.name for x in cd.struct("BeaconMetadata").fields} if cd is not None else set()
+    except AnalysisError:
+        return set()
+
+
+def _key_vs_seed(ctx, f, key, seeds):
+    """Relation of a look-up key to the seed(s) of the derivation of f: 'same' (the key is the seed, or a tuple that has
+    the seed as an element: equal keys => equal seeds), 'independent' (the key is built only of constants, of *other*
+    fields of the structure that carries the seed and of other parameters: the property quantifies over every field and
+    every 16-byte seed independently, so equal keys do not imply equal seeds), else 'unknown'.  Another parameter counts as
+    independent only when the seed itself enters the function through a parameter."""
+    fn = f.node
+    k = _inl(fn, key)
+    stexts = {src(s) for s in seeds}
+    bases = {src(s.value): s for s in seeds if isinstance(s, (ast.Attribute, ast.Subscript))}
+    seed_names = {a for s in seeds for a in ([s.attr] if isinstance(s, ast.Attribute) else [_c(s.slice)] if isinstance(s, ast.Subscript) else [])}
+    fields = _metadata_scalar_fields(ctx)
+    ps = params(fn)
+
+    def root(e):
+        while isinstance(e, (ast.Attribute, ast.Subscript)):
+            e = e.value
+        return e.id if isinstance(e, ast.Name) else None
+
+    roots = {root(s) for s in seeds}
+    seed_from_params = all(r in ps and not (ps.index(r) == 0 and r in ("self", "cls")) for r in roots)
+
+    def same(e):
+        e = _unbytes(e)
+        return src(e) in stexts or (isinstance(e, ast.Tuple) and any(same(x) for x in e.elts))
+
+    def indep(e):
+        e = _unbytes(e)
+        if isinstance(e, ast.Constant):
+            return True
+        if src(e) in stexts or src(e) in bases:
+            return False
+        if isinstance(e, ast.Attribute):
+            return src(e.value) in bases and e.attr in fields and e.attr not in seed_names
+        if isinstance(e, ast.Subscript) and not isinstance(e.slice, ast.Slice) and isinstance(_c(e.slice), str):
+            return src(e.value) in bases and _c(e.slice) in fields and _c(e.slice) not in seed_names
+        if isinstance(e, ast.Name):
+            # another parameter - an independent input only when the seed itself comes in through a parameter (a seed that
+            # is computed in the function may be determined by the other parameters)
+            return e.id in ps and not (ps.index(e.id) == 0 and e.id in ("self", "cls")) and seed_from_params and e.id not in roots
+        if isinstance(e, ast.Tuple):
+            return all(indep(x) for x in e.elts)
+        if isinstance(e, ast.BinOp):
+            return indep(e.left) and indep(e.right)
+        if isinstance(e, ast.Call) and dotted(e.func) in ("int", "str", "hex", "hash", "repr", "abs") and not e.keywords:
+            return all(not isinstance(a, ast.Starred) and indep(a) for a in e.args)
+        return False
+
+    if same(k):
+        return "same"
+    return "independent" if indep(k) else "unknown"
+
+
+def r9(ctx):
+    """The session keys a function hands out for a metadata are those of *that* metadata.  A function that derives session
+    keys from a seed (R5 located the derivation) and returns them / stores them into an attribute must not, on another
+    path, hand out a value taken from state that outlives the call (a module- / class-level or `self` container: registry,
+    memo, cache) under a key that does not determine the seed: the element was put there for an *earlier* seed."""
+    n_subjects = 0
+    for f in ctx.repo.all_funcs():
+        if isinstance(f.node, ast.Lambda) or not _relevant(f.node):
+            continue
+        fn = f.node
+        seeds = []
+        for _n, x in _roots(ctx, f, _sinks(ctx, f)):
+            if x.seed is not None and _seed_verdict(f, x.seed)[0] is True:
+                s = _inl(fn, x.seed)
+                if src(s) not in {src(y) for y in seeds}:
+                    seeds.append(s)
+        if not seeds:
+            continue
+        subjects = []  # (description, node, [value expressions])
+        rets = [s for s in statements(fn) if isinstance(s, ast.Return) and s.value is not None]
+        if rets:
+            subjects.append(("returned value", rets[0], [r.value for r in rets]))
+        by_target = {}
+        for st in statements(fn):
+            if isinstance(st, (ast.Assign, ast.AnnAssign)) and st.value is not None:
+                for t in (st.targets if isinstance(st, ast.Assign) else [st.target]):
+                    for te, v in _pairs(t, st.value):
+                        if isinstance(te, ast.Attribute) and dotted(te):
+                            by_target.setdefault(dotted(te), []).append((st, v))
+        for name, stores in sorted(by_target.items()):
+            subjects.append((f"value stored into {name}", stores[0][0], [v for _s, v in stores]))
+        # containers into which this function puts derived keys (`C[K] = <derived>`, also as one target of a chained
+        # assignment): an element read back from such a container is session-key material that is handed out
+        fed = set()
+        for st in statements(fn):
+            if isinstance(st, ast.Assign) and any(isinstance(t, ast.Subscript) for t in st.targets):
+                d = _classify(ctx, f, st.value)
+                if d is not None and d.kind != "bad":
+                    fed.update(src(t.value) for t in st.targets if isinstance(t, ast.Subscript))
+        for desc, node, values in subjects:
+            origins, n_derived = [], 0
+            for v in values:
+                if isinstance(v, tuple):  # element of an unpacked value
+                    d = _classify(ctx, f, v)
+                    n_derived += d is not None and d.kind != "bad"
+                    continue
+                for o in _value_origins(fn, v):
+                    d = _classify(ctx, f, o)
+                    if d is not None and d.kind != "bad":
+                        n_derived += 1
+                    elif d is None:
+                        origins.append(o)
+                        lk = _state_lookup(fn, o)
+                        n_derived += lk is not None and src(lk[0]) in fed
+            if not n_derived:
+                continue  # not a place where derived session keys are handed out
+            n_subjects += 1
+            text = f"handed-out session keys are those of the given seed ({desc})"
+            bad, open_ = [], []
+            for o in origins:
+                if (isinstance(o, ast.Constant) and o.value is None) or (isinstance(o, ast.Name) and o.id in params(fn)):
+                    continue  # no keys / keys supplied by the caller
+                lk = _state_lookup(fn, o)
+                if lk is None:
+                    open_.append(f"`{src(o)[:60]}` (origin not followed)")
+                    continue
+                rel = _key_vs_seed(ctx, f, lk[1], seeds)
+                if rel == "independent":
+                    bad.append((o, f"`{src(o)[:70]}`: an element of `{src(lk[0])[:40]}`, which outlives the call, selected by `{src(_inl(fn, lk[1]))[:40]}` - "
+                                   f"that key does not determine the seed `{src(seeds[0])[:40]}`, so for a second metadata with the same key and other "
+                                   f"random bytes the keys of the earlier one are handed out, not SHA-256 halves of the bytes it carries"))
+                else:
+                    open_.append(f"`{src(o)[:60]}` (look-up in state that outlives the call, key {'is' if rel == 'same' else 'may depend on'} the seed; the stored elements are not followed)")
+            if bad:
+                ctx.ob("R9", "AGREE", f, text, False, "; ".join(t for _o, t in bad), bad[0][0])
+            elif open_:
+                ctx.undecided("R9", "AGREE", f, text, f"next to the derivation from `{src(seeds[0])[:40]}` the value may also be " + "; ".join(open_), node)
+            else:
+                ctx.ob("R9", "AGREE", f, text, True, f"every value that reaches it is derived from `{', '.join(src(s)[:40] for s in seeds)}` in this call (or supplied by the caller / None)", node)
+    ctx.rep.count("key_handout_sites", n_subjects, floor=3)
 
 
 # ================================================================================================================== R6
